@@ -29,6 +29,34 @@ CHECKS = {
          'Static analysis of the cancel path: the cancel list grows only by arg[uids] of cancel_tasks messages; is_canceled reports and hands on only the given task when its uid is in the list; the intake filter keeps exactly the not-canceled things; the scheduler forwards the uids to its process, removes waiting tasks keyed by the requested uid together with their CANCELED report, filters the raptor backlog by uid; the executor cancels only get_task(uid) for requested uids; cancel_task kills the pid of the task it was given, frees once (arbitration R07.2) and records CANCELED; keys read by handlers are written by the publisher which sets fwd=True. Decides selection-by-uid and polarity at every site, not global delivery histories.',
          'Trusted: uids unique; pubsub delivers the control message. Not decided: whether os.killpg reaches the processes; timing of arrival beyond the per-stage rules.',
          'DESIGN.md section 5 / C08'),
+ 'C09': ('effect (purity) analysis over resolved self-calls, dependence closure from the placement to the returned command, interface/table completeness',
+         'Static analysis of the 13 launch-method classes of the factory table: no history-dependent store to self.* that flows into a command (the command depends only on the task at hand); the returned command and written host/rank files depend on the node names/indices of task[slots]; a launcher whose command does not depend on the rank count refuses multi-rank tasks (comparison evaluated for n=2..9); every class provides the five query methods, can_launch returns a 2-tuple on every path, find_launcher iterates the configured order and returns at the first acceptance. May-depend, not the option semantics of each MPI flavour.',
+         'Trusted: ru.create_hostfile writes what it is given. Not decided: flavour-specific option semantics. Known findings K3a/K3b (APRun, CCMRun ignore the placement).',
+         'DESIGN.md section 5 / C09'),
+ 'C10': ('table-driven def-use of every RP_* export, taint of arguments/environment values through the quoter, reachability order of script sections',
+         'Static analysis of the script generators: each RP_* export is fed by the source frozen in the table (ids, sandboxes, per-rank figures, control addresses from addr_pub/addr_sub); every element of td[arguments] reaches the command only through ru.sh_quote; section order of the exec and launch scripts (env, rank ids, task env, pre_exec, exec, post_exec; cd, launcher env, pre_launch, launch with stdout/stderr redirect, post_launch), exit-code capture directly after the command, the per-rank switch covers range(n_ranks). Decides the Python side only.',
+         'Trusted: ru.sh_quote quotes one word. Not decided: what bash does with the text. Known finding K4 (environment values unquoted).',
+         'DESIGN.md section 5 / C10'),
+ 'C12': ('one-outcome-per-path counting in the binding loops, reaching definitions of the pilot handed to _assign_pilot, drain/ownership rules of the pools, guard sets of the backfilling candidates',
+         'Static analysis of the three client-side schedulers: the pilot bound to a task derives from the added-pilot list (written only by add/remove_pilots); every task gets exactly one outcome per path (forwarded xor kept); pools whose content is forwarded are drained on that path (incl. early-bound tasks); _assign_pilot precedes every hand-on to input staging; backfilling candidates are guarded by role==ADDED, the state window and used<hwm; usage is credited and debited by the same expression, debit once per uid; round-robin index wrapped before use and advanced once per assignment.',
+         'Not decided: interleavings of control and state messages; inner loops explored with one iteration.',
+         'DESIGN.md section 5 / C12'),
+ 'C13': ('control dependence with polarity of the FAILED update on pilot-final, task.pilot == pid and task non-final; callback registration coverage',
+         'Static analysis of TaskManager._pilot_state_cb / add_pilots: the FAILED update of a task is control dependent (right polarity) on the pilot being final, on the task being bound to that pilot and on the task not being final, and the explanation is built from the pilot id; the callback is registered on every added pilot.',
+         'Guards moved into unresolvable helpers give exit 2, never a violation.',
+         'DESIGN.md section 5 / C13'),
+ 'C15': ('decision table of the requested-state normalisation (reaching definitions), loop-exit analysis of the polling loops against final states and timeout, return-value provenance',
+         'Static analysis of Task.wait, Pilot.wait, TaskManager.wait_tasks, PilotManager.wait_pilots: the state set reaching the polling loop is FINAL / [state] / state for the three argument shapes; no infinite path through the loop once the awaited entities are final or the timeout expired; every return yields a current .state read. Does not decide "shortly after" (poll period).',
+         'Not decided: timing.',
+         'DESIGN.md section 5 / C15'),
+ 'C17': ('exhaustive table check: every shipped resource config x schema (merge mirrored from get_resource_config) against factory tables extracted from the AST; def-use agreement of job and agent sinks in _prepare_pilot',
+         'Static, exhaustive over all shipped resource_*.json entries and schemas (63 resources, 120 pairs today): after the same merge get_resource_config performs and a mirror of the typed verify(), resource manager, launch methods, order, scheduler, spawner and agent config resolve through the factory tables (extracted from the impl dict literals and local imports) to classes that exist; component kinds and bridges of the agent/tmgr/pmgr/session configs resolve; in _prepare_pilot job and agent receive the same core/gpu/node figures, the divisor depends on SMT and blocked lists, the node count is ceil/max-combined. Minimality of the node count for all numeric inputs is not decided.',
+         'Trusted: ru.dict_merge/TypedDict semantics as mirrored. Not decided: minimal node count for every numeric input.',
+         'DESIGN.md section 5 / C17'),
+ 'C18': ('ownership (every RM builds node_list through _get_node_list on all paths), must-pass and dominance rules on _filter_nodes/_init_from_scratch/__init__',
+         'Static analysis of the 9 resource managers of the factory table and the base class: node_list is assigned from _get_node_list (unique enumerate index, configured core/GPU vectors) on every path to return and nowhere else; reduction to the requested size, agent/service nodes popped (moved), raising emptiness test passed by every return; registry written after _init_from_scratch (which filters) and the read path does not filter again. Node-file parsing for arbitrary contents is not decided.',
+         'Not decided: node file parsing for arbitrary contents.',
+         'DESIGN.md section 5 / C18'),
 }
 PENDING = 'check not built yet in this round (static rules designed in DESIGN.md section 5); not claimed until the checker exists'
 NA = {}
